@@ -97,6 +97,13 @@ void state_touch(struct snapraid_state* state)
 					/* LCOV_EXCL_STOP */
 				}
 
+				/* if the file on disk has already a sub-second timestamp, it was modified */
+				/* after the last sync, and we must not hide this change */
+				if (STAT_NSEC(&st) != 0 && STAT_NSEC(&st) != STAT_NSEC_INVALID) {
+					close(f);
+					continue;
+				}
+
 				/* set the tweaked modification time, with new nano seconds */
 				ret = fmtime(f, st.st_mtime, nsec);
 				if (ret != 0) {
